@@ -758,6 +758,7 @@ func runC06(tier string, seed uint64, o *Out) error {
 	}
 	c06Diff(tier, r, o)
 	c06Malformed(tier, r, o)
+	c06CasePairs(tier, r, o)
 	return nil
 }
 
